@@ -611,6 +611,12 @@ def _run_schema_steps(case, obs, s, objs, S, T, orjson):
                 s.columns.append(objs[st[1]])
             elif k == "list_pop":
                 s.columns.pop()
+            elif k == "list_set":             # round 7: a column redefined in place: schema.columns[i] = another object
+                if not (0 <= st[1] < len(s.columns)):
+                    raise IndexError("C16: list_set outside the columns list")
+                s.columns[st[1]] = objs[st[2]]
+            elif k == "find":                 # round 7: look a name up, on the live schema and on one restored just now
+                o = _observe_find(s, st[1], S)
             elif k == "save":                 # the caller keeps a dictionary: a value, the schema as it is now
                 saved = s.to_dict()
                 o = dict(_live(s, S), refs=[_canon(objs, c) for c in s.columns])
@@ -717,6 +723,35 @@ def _observe_round(case, s, objs, S, T):
         for rec in case.get("records", []):
             r = {k: dec(v) for k, v in rec}
             o["validate"].append([_validate_outcome(s, dict(r)), _validate_outcome(restored, dict(r))])
+    return o
+
+
+def _pos(cols, c):
+    if c is None:
+        return None
+    for i, x in enumerate(cols):
+        if x is c:
+            return i
+    return -1                            # an object that is not in the columns list
+
+
+def _observe_find(s, name, S):
+    """find_column(name) and column(name): position (in its own columns list) and attributes of the column returned, on
+    the live schema and on from_dict(to_dict(live)) taken now; and the DataFrame descriptions of both at this moment"""
+    def look(schema, how):
+        def f():
+            c = schema.find_column(name) if how == "find" else schema.column(name)
+            return [_pos(schema.columns, c), None if c is None else _attrs(c)]
+        return _try(f)
+
+    o = {"name": name, "cols": [_attrs(c) for c in s.columns], "live": [look(s, "find"), look(s, "column")]}
+    try:
+        restored = S.RelationSchema.from_dict(s.to_dict())
+    except Exception as e:
+        o["rest"] = [["raise", _exn(e)], ["raise", _exn(e)]]
+        return o
+    o["rest"] = [look(restored, "find"), look(restored, "column")]
+    o["desc"] = [_description(s), _description(restored)]
     return o
 
 
@@ -928,6 +963,35 @@ def _json_why(a, o):
     return None
 
 
+def _find_why(o):
+    """the restored schema behaves identically: the same name finds the same column (same position, same definition) in
+    the schema as it is now and in the schema restored from it; and the column found answers to that name"""
+    name = o["name"]
+    for how, live, rest in zip(("find_column", "column"), o["live"], o["rest"]):
+        call = "%s(%r)" % (how, name)
+        if live[0] != "ok" or rest[0] != "ok":
+            if live != rest:
+                return "%s: the schema gives %s, the restored schema %s" % (call, live, rest)
+            continue
+        (p1, a1), (p2, a2) = live[1], rest[1]
+        if p1 == -1 or p2 == -1:
+            return "%s returned a column that is not in the columns list (%s)" % (call, "schema" if p1 == -1 else "restored schema")
+        if a1 is not None:
+            names = [x[1] if x[0] == "s" else None for x in (_a(a1, "aliases")[1] if _a(a1, "aliases")[0] == "l" else []) + [_a(a1, "name")]]
+            if name not in names:
+                return "%s returned a column that does not answer to that name: its names are %s" % (call, names)
+        if p1 != p2:
+            return "%s: the schema finds %s, the restored schema %s" % (call, "no column" if p1 is None else "column %d" % p1,
+                                                                          "no column" if p2 is None else "column %d" % p2)
+        if a1 is not None:
+            bad = _diff(a1, a2, _col_skips(a1))
+            if bad:
+                return "%s: the restored schema must find the same definition: %s" % (call, "; ".join(bad))
+    if "desc" in o and not any(_array_without_element(a) for a in o["cols"]) and o["desc"][0] != o["desc"][1]:
+        return "the restored schema must report the same column descriptions: %s vs %s" % (o["desc"][0], o["desc"][1])
+    return None
+
+
 def _steps_why(case, obs):
     """the property on every observation of a session: what comes back equals the objects AS THEY ARE at that moment"""
     for k, (st, o) in enumerate(zip(case.get("steps", []), obs.get("steps", []))):
@@ -962,6 +1026,8 @@ def _steps_why(case, obs):
                     bad += ["column %d %s" % (i, x) for x in _diff(a, b, set())]
                 why = ("the %s is a separate object equal to the schema: editing it must leave the schema itself unchanged: %s"
                        % ("returned dictionary" if st[0] == "scribble" else "restored schema", "; ".join(bad)))
+        elif st[0] == "find":
+            why = _find_why(o)
         elif st[0] == "json":
             why = _json_why(o["cur"], o)
         elif st[0] == "flatten":
@@ -1274,6 +1340,11 @@ def to_coq(case, obs):
             ops.append("(SListAppend %s)" % L.nat(st[1]))
         elif k == "list_pop":
             ops.append("SListPop")
+        elif k == "list_set":
+            ops.append("(SListSet %s %s)" % (L.nat(st[1]), L.nat(st[2])))
+        elif k == "find":
+            for live, rest in zip(o["live"], o["rest"]):
+                ops.append("(SFind %s %s %s)" % (L.text(st[1]), _cfound(live), _cfound(rest)))
         elif k in ("scribble", "edit_copies"):
             ops.append("SScribble")
         elif k == "save":
@@ -1294,6 +1365,11 @@ def to_coq(case, obs):
             b = built[st[1]]
             ops.append("(SJson %s %s %s)" % (L.nat(st[1]), _cres(o["json"], lambda j: _cjson(j, I)), _crobs(b, o["back"], I)))
     return ("ssess", "(%s, %s, %s)" % (term, L.lst(L.nat(i) for i in obs["refs"]), L.lst(ops)))
+
+
+def _cfound(r):
+    """the outcome of a lookup: a position in the columns list (4999: an object that is not in the list), None, or the exception"""
+    return "(%s : result (option nat))" % _cres(r, lambda x: L.opt(None if x[0] is None else L.nat(x[0] if x[0] >= 0 else 4999)))
 
 
 POISON = "(SColAppend 0%nat FName ANone)"      # a step of the session raised: no model state follows (the check fails closed)
@@ -1727,6 +1803,8 @@ def exhaustive(tier):
             yield c
         for c in _schema_session_cases():
             yield c
+        for c in _lookup_session_cases():
+            yield c
         for c in _flat_session_cases():
             yield c
         for cls in EXTRAS:
@@ -1919,6 +1997,57 @@ def _schema_session_cases():
         yield c
 
 
+def _lookup_session_cases():
+    """round 7: a schema that has been IN USE (described, looked up by name) and is then edited without its number of
+    columns changing - an alias appended, a column renamed, a column redefined in place, the last column swapped for
+    another - must answer every later lookup from its CURRENT definitions, exactly as the schema restored from it does"""
+    recs = [[["id", I_(1)], ["name", S_("Earth")]]]
+    spare = [["name", S_("mass")], ["type", S_("DECIMAL(10,2)")], ["nullable", ["b", False]], ["aliases", ["l", [S_("weight")]]], ["identity", S_("col-mass2")]]
+    asked = ["id", "planet_id", "name", "label", "title", "mass", "weight", "moons", "blob", "nothing", ""]
+    every = [["find", n] for n in asked]
+    sessions = [
+        # looked up, alias appended, looked up again
+        [["find", "id"], ["find", "planet_id"], ["col_append", 0, "aliases", S_("planet_id")], ["find", "planet_id"], ["find", "id"], ["round"]],
+        # renamed after use: the old name finds nothing, the new one finds it, its alias still does
+        [["find", "name"], ["col_set", 1, "name", S_("label")], ["find", "name"], ["find", "label"], ["find", "title"], ["round"]],
+        # the demo's shape: used, then alias + rename + a column redefined in place (the spare object, popped off the list first)
+        [["list_pop"], ["find", "mass"], ["round"], ["col_append", 0, "aliases", S_("planet_id")], ["col_set", 1, "name", S_("label")],
+         ["list_set", 2, 7]] + every + [["round"]],
+        # never looked up between the pop and the edits (the single-shot description was the only use)
+        [["list_pop"], ["col_append", 0, "aliases", S_("planet_id")], ["col_set", 1, "name", S_("label")], ["list_set", 2, 7]] + every + [["round"]],
+        # same number of columns by pop + append: the last column swapped for one listed already / for the spare again
+        [["find", "mass"], ["list_pop"], ["list_append", 0], ["find", "mass"], ["find", "weight"], ["find", "id"], ["round"],
+         ["list_pop"], ["list_append", 7], ["find", "weight"], ["find", "mass"], ["round"]],
+        # a rename that shadows / unshadows another column, aliases replaced and removed
+        [["find", "id"], ["col_set", 2, "name", S_("id")], ["find", "id"], ["find", "mass"], ["col_set", 0, "name", S_("zzz")], ["find", "id"], ["find", "zzz"],
+         ["col_set", 1, "aliases", ["l", [S_("id"), S_("caption")]]], ["find", "id"], ["find", "title"], ["find", "caption"],
+         ["col_set", 1, "aliases", ["n"]], ["find", "caption"], ["find", "name"], ["round"]],
+        # two columns exchange places; a position redefined twice; lookups between every edit
+        [["find", "id"], ["list_set", 0, 1], ["find", "id"], ["find", "name"], ["list_set", 1, 0], ["find", "id"], ["find", "name"], ["find", "title"], ["round"],
+         ["list_set", 0, 0], ["list_set", 1, 1], ["find", "id"], ["find", "name"], ["round"]],
+        # what the caller does to ITS objects never shows in a lookup; a saved dictionary restores the old names
+        [["save"], ["find", "name"], ["round"], ["edit_copies"], ["find", "name"], ["scribble"], ["find", "title"], ["col_set", 1, "name", S_("label")],
+         ["restore_saved"], ["find", "name"], ["find", "label"], ["round"]],
+    ]
+    for steps in sessions:
+        c = _one(_planets() + [spare], pk=S_("id"), records=recs)
+        c["steps"] = steps
+        yield c
+    for o in range(7):              # each column in turn: used, renamed, alias appended, looked up under all its names
+        name = dict((a, b) for a, b in _planets()[o])["name"][1]
+        c = _one(_planets(), records=recs)
+        c["steps"] = [["find", name], ["col_set", o, "name", S_("new-" + name)], ["find", name], ["find", "new-" + name], ["round"],
+                      ["col_append", o, "aliases", S_(name)], ["find", name], ["round"]]
+        yield c
+    # the smallest ones
+    c = _one([[["name", S_("x")], ["type", S_("INTEGER")], ["identity", S_("col-x")]]])
+    c["steps"] = [["find", "x"], ["col_set", 0, "name", S_("y")], ["find", "x"], ["find", "y"]]
+    yield c
+    c = _one([[["name", S_("x")], ["type", S_("INTEGER")], ["identity", S_("col-x")]], [["name", S_("x")], ["type", S_("VARCHAR")], ["identity", S_("col-x2")]]])
+    c["steps"] = [["find", "x"], ["list_pop"], ["find", "x"], ["list_set", 0, 1], ["find", "x"], ["round"]]
+    yield c
+
+
 def _canon_of(cols):
     return [c.get("same_as") if c.get("same_as") is not None else j for j, c in enumerate(cols)]
 
@@ -1930,10 +2059,27 @@ def _random_schema_session(rng):
     objs = sorted(set(canon))
     n = len(cols)
     steps = []
+    pool = ["extra", "al\u00efas", "x", "replaced", "renamed", "nothing"]          # names asked for / given: the columns' own, the aliases the session may add
+    for c in cols:
+        d = dict((a, b) for a, b in c["kw"])
+        pool += [e[1] for e in [d.get("name")] + (d["aliases"][1] if d.get("aliases", ["n"])[0] == "l" else []) if e and e[0] == "s"]
+    pool = sorted(set(pool))
     for _ in range(rng.choice([2, 3, 4, 6, 8])):
         r = rng.random()
         o = rng.choice(objs)
         kw = cols[o]["kw"]
+        if rng.random() < 0.3:           # round 7: lookups by name, renames, columns redefined in place
+            q = rng.random()
+            if q < 0.5:
+                steps.append(["find", rng.choice(pool)])
+            elif q < 0.75:
+                new_name = rng.choice(pool)
+                steps.append(["col_set", o, "name", S_(new_name)])
+            elif n > 0:
+                steps.append(["list_set", rng.randrange(n), o])
+            if rng.random() < 0.6:
+                steps.append(["find", rng.choice(pool)])
+            continue
         if r < 0.22 and _list_valued(kw, "aliases"):
             steps.append(["col_append", o, "aliases", S_(rng.choice(["extra", "al\u00efas", "x"]))])
         elif r < 0.27 and _list_valued(kw, "origin"):
@@ -2047,7 +2193,7 @@ def shrink(case):
             yield dict(case, steps=st[:j])
         for j in range(len(st)):
             yield dict(case, steps=st[:j] + st[j + 1:])
-        if case["kind"] == "schema":     # ... then fewer columns: a column no operation names and nothing refers to
+        if case["kind"] == "schema" and not any(x[0] == "list_set" for x in st):     # ... then fewer columns: a column no operation names and nothing refers to
             cols = case["cols"]
             used = {x[1] for x in st if x[0] in ("col_set", "col_append", "list_append", "json")} | {c["same_as"] for c in cols if c.get("same_as") is not None}
             for i in range(len(cols) - 1, -1, -1):
@@ -2228,13 +2374,15 @@ LEVEL_TEXT = ("Machine-checked Coq theorems: for every well-formed column (any v
               "column in place whether or not names repeat. Object identity and mutation are explicit (heap of column objects, columns list as references, assignments, "
               "in-place appends, repeated saves): for every operation sequence the round trip and the flattening taken now depend on the current values only, and "
               "flattening ignores every attribute outside the listed thirteen. The stored default of every constructed column is proved to be the cast under the column's final "
-              "parameters (declared by name, by keyword or derived), so for an idempotent parse every constructed column meets the default premise. The model is tied to orso/schema.py by running real schemas over every type-name form x each "
+              "parameters (declared by name, by keyword or derived), so for an idempotent parse every constructed column meets the default premise. Lookups by name (find_column / column(name), the path of DataFrame.description) are "
+              "modelled as the first listed column answering to the name NOW; for every operation sequence - incl. renames, aliases appended and columns redefined in place after the schema was looked up - "
+              "the restored schema is proved to find the same column for every name. The model is tied to orso/schema.py by running real schemas over every type-name form x each "
               "optional attribute (and random combinations) through all five operations and evaluating the model on the same inputs inside Coq; an "
               "attribute-by-attribute, type-strict oracle on the implementation supplies replayable failing inputs.")
 LEVEL_NOTE = ("Trusted: Coq kernel + vm_compute; the hand-written model; Model/C06 from_name for the re-parse of type names (ASCII); OrsoTypes.parse (C07) and "
               "orjson's leaf serialisation enter as section parameters with the round-trip hypotheses stated in the theorems, instantiated in the correspondence "
               "by the results observed on the real functions; the default hypothesis is evaluated in Coq on every built column (default_fixed) and observed BLOB / VARCHAR "
-              "casts are compared with the concrete sub-model text_cast (parse_conforms); a negative length keyword is outside the claim (C16_negative_length_refuted). Sessions: what a caller's scribbling does to a returned dictionary is not modelled (model no-op); validate / whole-schema description / == at each save are oracle-only. Partial: type of untyped columns (F-C16-4b); known findings F-C16-8 (ARRAY without element type) and F-C16-10 "
+              "casts are compared with the concrete sub-model text_cast (parse_conforms); a negative length keyword is outside the claim (C16_negative_length_refuted). Sessions: what a caller's scribbling does to a returned dictionary is not modelled (model no-op); validate / whole-schema description / == at each save and at each lookup, and the definition of the column a lookup returns, are oracle-only (the position it returns is checked in Coq). Partial: type of untyped columns (F-C16-4b); known findings F-C16-8 (ARRAY without element type) and F-C16-10 "
               "(values JSON cannot carry back) are guarded by explicit input classes (see notes/C16.md). The attribute `expectations` is not among those the "
               "property enumerates: the oracle does not compare it (observation: Expectation objects come back as dictionaries); the model still covers it. NaN values are not generated. validate is compared by the oracle on a record battery, its model is C05's.")
 DESIGN_REF = "DESIGN.md section 8, C16"
@@ -2248,7 +2396,7 @@ RULE = ("schemas of 1-4 FlatColumns built through the real constructor from keyw
         "attribute alone and all together; VARCHAR[n] / BLOB[n] (n = 1..5, 8, by name and by the length keyword) x non-ASCII defaults (1- to 4-byte characters) given as text and as "
         "bytes; schemas whose columns share a name (renamed column, equal twin, the same object listed twice); all six column classes for to_flatcolumn; a case is non-trivial when every column definition was accepted; "
         "sessions: the single-shot observations first, then operations on the same live objects (assign an attribute, append in place to a list attribute of a column or of "
-        "the schema, grow / shrink the columns list, scribble on the returned dictionary) interleaved with to_dict + from_dict, to_json + from_json and to_flatcolumn (all six classes; "
+        "the schema, grow / shrink the columns list, redefine a position of the columns list in place, rename a column, scribble on the returned dictionary) and lookups by name (find_column / column(name) / description, on the live schema and on one restored at that moment; names asked: current, former and never-given ones) interleaved with to_dict + from_dict, to_json + from_json and to_flatcolumn (all six classes; "
         "length / default assigned after construction); parameters declared by keyword instead of by the type name (DECIMAL precision only / scale only / both / none, length, "
         "ARRAY element type, a keyword overriding the name) with defaults that exceed the derived parameters; distinct by the case without its random identities")
 TRUSTED = [
